@@ -439,13 +439,14 @@ func NewCase(sp Spec, opt Options) *Case {
 // observes the per-runtime settings (stack depth limit, trace limit, random
 // source, debugger handler).
 const postExpr = `[(function d(n) { try { return d(n + 1); } catch (e) { return n; } })(0),
- (function f(n) { return n ? f(n - 1) : new Error("x").stack.split("\n").length; })(9), Math.floor(Math.random() * 100000)].join("/")`
+ (function f(n) { return n ? f(n - 1) : new Error("x").stack.split("\n").length; })(9), Math.floor(Math.random() * 100000),
+ typeof MINE === "undefined" ? "-" : MINE.join("|")].join("/")`
 
 const PostSrc = "debugger; " + postExpr
 
 // TemplatePostSrc additionally observes the template's user state, which no
 // copy may have changed.
-const TemplatePostSrc = `debugger; [T.arr.join(), T.counter, T.seen, T.re.lastIndex, T.d.getTime(), T.err.message, T.obj.n.deep[0], "gone" in T.obj, T.args[0], T.cat("t"), T.next(), T.audit.join(), "bridge", gslice.length, typeof Array.prototype.leak, gmk() instanceof Array, "/bridge", T.calls, T.where, T.gsv, T.proto.pc, T.rd(), T.ev(), T.cth(), T.wth()].join("|") + "#" + ` + postExpr
+const TemplatePostSrc = `debugger; [T.arr.join(), T.counter, T.seen, T.re.lastIndex, T.d.getTime(), T.err.message, T.obj.n.deep[0], "gone" in T.obj, T.args[0], T.cat("t"), T.next(), T.audit.join(), T.u16 + "," + T.u16n + "," + T.u16a.length + "," + T.prims.join(), "bridge", gslice.length, typeof Array.prototype.leak, gmk() instanceof Array, "/bridge", T.calls, T.where, T.gsv, T.proto.pc, T.rd(), T.ev(), T.cth(), T.wth()].join("|") + "#" + ` + postExpr
 
 func runLine(vm *otto.Otto, what string, src interface{}) string {
 	res := ox.Run(vm, src)
